@@ -320,6 +320,25 @@ def _shard_main(args):
         return ('err', traceback.format_exc())
 
 
+def run_regress(mod, ctx, only=None):
+    """Replay tier: every saved input under regress/<id>/ goes through its family's oracle on every run."""
+    import glob
+    fams = {f.name: f for f in mod.FAMILIES}
+    done = set()
+    for path in sorted(glob.glob(os.path.join(HERE, 'regress', mod.PROPERTY, '*.json'))):
+        with open(path) as fh:
+            r = json.load(fh)
+        fam = fams.get(r['family'])
+        if fam is None or (only and fam.name not in only):
+            continue
+        if fam.setup is not None and fam.name not in done:
+            fam.setup(ctx)
+            done.add(fam.name)
+        ctx.begin(fam.name, r['case'])
+        fam.check(ctx, r['case'])
+        ctx.event('regress:replayed')
+
+
 def write_evidence(mod, ctx, tier, seed, wall, nviol, extra=None):
     cov = dict(
         evaluations=int(ctx.evaluations),
@@ -367,6 +386,7 @@ def run_check(modname, tier, seed, only=None, nshards=None, do_shrink=True):
             sys.stderr.write('HARNESS-ERROR in shard:\n%s\n' % res)
             return 2
         ctx.merge(res)
+    run_regress(mod, ctx, only)
     known = load_known()
     fams = {f.name: f for f in mod.FAMILIES}
     nviol = 0
